@@ -240,7 +240,7 @@ def t3_increment(ctx: Ctx):
 # ----------------------------------------------------------------------
 # T4
 
-def _direction_hook(direction_value, seen):
+def _direction_hook(direction_value, seen, nearest=None):
     def hook(st, env):
         if isinstance(st, ast.Assign) and isinstance(st.value, ast.Call) \
                 and (call_name(st.value) or '').endswith('.to_direction'):
@@ -248,7 +248,7 @@ def _direction_hook(direction_value, seen):
             if not (isinstance(tgt, ast.Tuple) and len(tgt.elts) == 2 and isinstance(tgt.elts[1], ast.Name)):
                 raise ShapeError('to_direction result not unpacked into two names')
             if isinstance(tgt.elts[0], ast.Name):
-                env[tgt.elts[0].id] = Opaque(st.value)
+                env[tgt.elts[0].id] = Opaque(st.value) if nearest is None else nearest
             env[tgt.elts[1].id] = direction_value
             seen.append(st)
             return True
@@ -272,7 +272,7 @@ def t4_overflow_tables(ctx: Ctx):
             tab = {}
             for d in dirs:
                 seen: list = []
-                kind, val, st = decide(repo, rel, fn.body, {}, _direction_hook(RD(d), seen))
+                kind, val, st = decide(repo, rel, fn.body, {}, _direction_hook(RD(d), seen, nearest=False))
                 if not seen:
                     raise ShapeError(f'{q} does not derive a direction from to_direction')
                 call = seen[0].value
@@ -286,6 +286,14 @@ def t4_overflow_tables(ctx: Ctx):
                 else:
                     ctx.check(kind == 'return' and isinstance(val, bool) and good_call, rel, st or fn, q, f'{mname}[{d}]',
                               f'arm for {d} yields {kind} {val!r}: every direction needs a boolean answer')
+            # a nearest mode (RNE: ties to even, RNA: ties away) takes the out-of-format end for every operand past the
+            # extreme; its direction only breaks ties, so the two must not differ here
+            for d in ('RTE', 'RAZ'):
+                seen = []
+                kind, val, st = decide(repo, rel, fn.body, {}, _direction_hook(RD(d), seen, nearest=True))
+                ctx.check(kind == 'return' and val is True, rel, st or fn, q, f'{mname}[nearest, ties {d}]',
+                          f'yields {kind} {val!r}: under a nearest mode a value past the extreme goes to the out-of-format end whatever the tie rule '
+                          '(ExpContext: 0.3 * minval gave NaN under RNE and minval under RNA)')
             tables[(cname, mname)] = (rel, fn, tab)
     # siblings: the float and fixed bounded families answer identically
     a = tables.get(('MPBFloatContext', '_overflow_to_infinity'))
@@ -1173,6 +1181,9 @@ _EF = CTXDIR + 'efloat.py'
 _EXP = CTXDIR + 'exponential.py'
 
 MUTANTS = [
+    Mutant('underflow-follows-the-tie-rule', CTXDIR + 'exponential.py', "        nearest, direction = self.rm.to_direction(s)\n        if nearest:\n            # as with an overflow, a nearest mode takes the out-of-format end\n            # whatever its tie rule: the direction only breaks ties\n            return True\n        match direction:\n            case RoundingDirection.RTZ:\n                return True",
+           "        _, direction = self.rm.to_direction(s)\n        match direction:\n            case RoundingDirection.RTZ:\n                return True", 'C01.T4',
+           'finding F102 before its repair: ExpContext(3), x = 0.3 * minval: NaN under RNE, minval under RNA'),
     Mutant('negative-overflow-of-an-unsigned-range-raises', CTXDIR + 'mpb_fixed.py', "                case OverflowMode.SATURATE:\n                    result = self._bound(xr.s)", "                case OverflowMode.SATURATE:\n                    result = self.maxval(s=xr.s)", 'C01.T7',
            'finding F93 before its repair: FixedContext(False, 0, 8, RNE, SATURATE).round(-3) raises ValueError'),
     Mutant('lower-end-untagged', CTXDIR + 'mpb_fixed.py', "            return Float(x=self.neg_maxval, s=self.enable_neg_zero and self.neg_maxval.s, ctx=self)", "            return Float(x=self.neg_maxval, s=self.enable_neg_zero and self.neg_maxval.s)", 'C01.T7'),
